@@ -96,7 +96,21 @@ func (p Parser) M() int {
 @*/
 
 /*@ func (self *Parser) expression
-    loop 1 invariant lhs != nil
+    serves C07
+    ensures @pratt-min err == nil ==> ast.VRootLeft(expr) > int(prec)
+    ensures @pratt-stop err == nil ==> lexer.VLeft(self.CurrentToken.Kind) <= int(prec)
+    loop 1 invariant @operand lhs != nil && ast.VRootLeft(lhs) > int(prec)
+    loop 1 invariant @lookahead int(left) == lexer.VLeft(self.CurrentToken.Kind)
+@*/
+
+/*@ func (self *Parser) literal
+    serves C07
+    ensures @atom lasterr == nil ==> ast.VRootLeft(result) == 256
+@*/
+
+/*@ func (self *Parser) objectLiteral
+    serves C07
+    ensures @atom lasterr == nil ==> ast.VRootLeft(result) == 256
 @*/
 
 /*@ func (self *Parser) Parse
@@ -106,19 +120,59 @@ func (p Parser) M() int {
 @*/
 
 /*@ func (self *Parser) intFloatLiteral
+    serves C07
     requires self.CurrentToken.Kind == lexer.Int || self.CurrentToken.Kind == lexer.Float
+    ensures @atom lasterr == nil ==> ast.VRootLeft(result) == 256
 @*/
 
 /*@ func (self *Parser) prefixExpression
+    serves C07
     requires ast.VIsPrefixTok(self.CurrentToken.Kind)
+    ensures @operator lasterr == nil ==> result.Operator == ast.TokenAsPrefixOperator(old(self.CurrentToken.Kind))
+    ensures @operand-tighter lasterr == nil && !restrictBaseToLiterals ==> ast.VRootLeft(result.Base) > lexer.VPrefixPower
+    ensures @operand-stop lasterr == nil && !restrictBaseToLiterals ==> lexer.VLeft(self.CurrentToken.Kind) <= lexer.VPrefixPower
 @*/
 
 /*@ func (self *Parser) infixExpression
+    serves C07
     requires ast.VIsInfixTok(self.CurrentToken.Kind) && lhs != nil
+    ensures @lhs lasterr == nil ==> result.Lhs == lhs
+    ensures @operator lasterr == nil ==> result.Operator == ast.VInfixOf(old(self.CurrentToken.Kind))
+    ensures @rhs-tighter lasterr == nil ==> ast.VRootLeft(result.Rhs) > lexer.VRight(old(self.CurrentToken.Kind))
+    ensures @rhs-stop lasterr == nil ==> lexer.VLeft(self.CurrentToken.Kind) <= lexer.VRight(old(self.CurrentToken.Kind))
 @*/
 
 /*@ func (self *Parser) assignExpression
+    serves C07
     requires ast.VIsAssignTok(self.CurrentToken.Kind) && lhs != nil
+    ensures @lhs lasterr == nil ==> result.Lhs == lhs
+    ensures @operator lasterr == nil ==> result.AssignOperator == ast.VAssignOf(old(self.CurrentToken.Kind))
+    ensures @rhs-tighter lasterr == nil ==> ast.VRootLeft(result.Rhs) > lexer.VRight(old(self.CurrentToken.Kind))
+@*/
+
+/*@ func (self *Parser) castExpression
+    serves C07
+    ensures @base lasterr == nil ==> result.Base == base
+@*/
+
+/*@ func (self *Parser) callExpression
+    serves C07
+    ensures @base lasterr == nil ==> result.Base == base
+@*/
+
+/*@ func (self *Parser) indexExpression
+    serves C07
+    ensures @base lasterr == nil ==> result.Base == base
+@*/
+
+/*@ func (self *Parser) memberExpression
+    serves C07
+    ensures @base lasterr == nil ==> result.Base == base && result.Operator == operator
+@*/
+
+/*@ func (self *Parser) groupedExpression
+    serves C07
+    ensures @inner lasterr == nil ==> result.Inner != nil
 @*/
 
 /*@ func (self *Parser) statemtent
